@@ -14,11 +14,11 @@ META = {
  "property": "C16",
  "harnesses": {
   "h_shapes_gfa1": {"kind": "G", "functions": _FUNCS,
-    "bounds": "GFA1 graphs on 4 segments a..d: edge 1 from a (any kind L/C, target, orientations: 32), edge 2 fully free (128), thorough: + a link leaving c (16): self links, hairpins, parallel edges, cycles, trees, isolated segments, containment-only relations; all combinations",
-    "timeout": {"quick": 400, "thorough": 1200}, "parts": {"quick": 16, "thorough": 16}},
+    "bounds": "GFA1 graphs on 4 segments a..d: edge 1 from a (any kind L/C, target, orientations: 32), edge 2 fully free (128), thorough: + a link leaving c (4 of its 16 forms): self links, hairpins, parallel edges, cycles, trees, isolated segments, containment-only relations; all combinations",
+    "timeout": {"quick": 400, "thorough": 900}, "parts": {"quick": 16, "thorough": 16}},
   "h_shapes_gfa2": {"kind": "G", "functions": _FUNCS,
     "bounds": "GFA2 graphs on 3 segments of length 10 with 2 E lines: endpoints (a->{a,b}; {a,b,c}->{b,c}), all orientation pairs, 7 interval-pattern pairs (suffix/prefix, prefix/suffix, prefix/prefix, inner/whole, whole/whole, inner/inner, empty/empty); all 56 x 168 combinations",
-    "timeout": {"quick": 400, "thorough": 1200}, "parts": {"quick": 16, "thorough": 16}},
+    "timeout": {"quick": 400, "thorough": 900}, "parts": {"quick": 16, "thorough": 16}},
   "h_after_history": {"kind": "G", "functions": _FUNCS + ["Gfa.rm", "Gfa.add_line", "Line.disconnect"],
     "bounds": "base states of histlib x every history of 1 (quick) / 2 (thorough) steps over {rm, add_line, disconnect}: oracle re-evaluated on the written text after every step",
     "timeout": {"quick": 400, "thorough": 900}, "parts": {"quick": 16, "thorough": 16}},
@@ -37,7 +37,7 @@ def _gfa1_edge(g, i, kind, f, t, fo, to):
 def h_shapes_gfa1(e1: int, e2: int, e3: int) -> bool:
   """
   pre: 0 <= e1 < 32 and 0 <= e2 < 128 and 0 <= e3 < 16
-  pre: THOROUGH or e3 == 0
+  pre: (THOROUGH and e3 % 4 == 0) or e3 == 0
   pre: (e1 + e2) % NPART == PART
   post: _ == True
   """
